@@ -2,7 +2,7 @@
    tree equals the hand model of SphereM.v, for ALL arguments (conversion only: the generated
    terms differ from the model by let-bindings and names).  Compiled on every run against the
    fresh SphereGen.v. *)
-From GV Require Import Prelude SphereM.
+From GV Require Import Prelude SphereM SphereP3.
 From Coq Require Import Reals.
 From GVgen Require Import SphereGen.
 Open Scope R_scope.
@@ -19,10 +19,20 @@ Proof. intros. reflexivity. Qed.
 Lemma geq_bearing_degrees : forall c1 c2, g_bearing_degrees c1 c2 = bearing c1 c2.
 Proof. intros. reflexivity. Qed.
 
+(* repair D53: the code clamps the argument of asin to [-1, 1] against float rounding; over the reals the argument IS in
+   [-1, 1] (SphereP3.s2_range), so the clamp is the identity and the generated term equals the unclamped model *)
+Lemma clamp_id x : -1 <= x <= 1 -> Rmax (- 1) (Rmin 1 x) = x.
+Proof. intros [A B]. rewrite (Rmin_right 1 x B). apply Rmax_right. exact A. Qed.
+
 Lemma geq_inverse_haversine_radians : forall s a d,
   g_inverse_haversine_radians s a d = dest_rad_rounded s a d.
-Proof. intros. reflexivity. Qed.
+Proof.
+  intros. unfold g_inverse_haversine_radians.
+  cbv zeta.
+  pose proof (s2_range (lat s * PI / 180) (d / g_EARTH_RADIUS) a) as Hs. unfold s2_of in Hs.
+  rewrite (clamp_id _ Hs). reflexivity.
+Qed.
 
 Lemma geq_inverse_haversine_degrees : forall s a d,
   g_inverse_haversine_degrees s a d = dest_deg_rounded s a d.
-Proof. intros. reflexivity. Qed.
+Proof. intros. unfold g_inverse_haversine_degrees. rewrite geq_inverse_haversine_radians. reflexivity. Qed.
